@@ -36,7 +36,7 @@ PLAN = {
     'C15': [('U', None)],
     'C16': [('A', None), ('K', None), ('A', None), ('K', None), ('A', None), ('K', 'helpers')],
     'C17': [('B', 'fault')],
-    'C18': [('A', None), ('R', 'bulkread'), ('A', None), ('R', 'lazy'), ('A', None), ('R', 'chunked')],
+    'C18': [('A', None), ('R', 'bulkread'), ('H', None), ('R', 'lazy'), ('A', None), ('R', 'chunked'), ('H', None)],
 }
 
 
